@@ -153,6 +153,8 @@ class BaseNode(Node):
             self.value = value
             return
         if isinstance(value, (IntegerType, FloatType)):
+            if node.units_raw and not self.units_raw:
+                raise Exception(f"Node '{self.name}' is defined without units and cannot be assigned a value with units:", node.code)
             value.unit = node.units_raw
             value.convert(self.units_raw, env)
         self.set_value(value.value)
